@@ -56,7 +56,7 @@ Definition run_num (p : list N) (k : string) : N :=
 Local Close Scope string_scope.
 Definition run_cfg (p : list N) : Config := config_of (run_num p) (fun _ => [0; 0; 0; 1]).
 Definition run_env (p : list N) : Env :=
-  mk_env (run_cfg p) (fun _ _ _ => true) (fun _ _ _ => true) (fun _ => repeat 0 48) (fun _ _ _ => true).
+  mk_env (run_cfg p) Base.Sha256.sha256 (fun _ _ _ => true) (fun _ _ _ => true) (fun _ => repeat 0 48) (fun _ _ _ => true).
 
 (* ---- the small states of a run ---- *)
 (* a pending attestation: bits, slot, committee index, beacon block root byte, source epoch, target epoch, target root
